@@ -743,11 +743,25 @@ func (s *Session) SetUnmarshaller(unmarshaller Unmarshaller) {
 }
 
 func (s *Session) Stop() (err error) {
+	// Registered before the Logout is sent: the peer's answer may be dispatched
+	// before this goroutine runs again, and it must still end the session at once
+	// instead of leaving that to the close timeout.
+	s.OnChangeState(utils.EventLogout, func() bool {
+		s.cancel()
+
+		return true
+	})
+
+	var delayTimer *time.Timer
+
 	// The event handlers are dropped once the session has really ended, not
-	// before: the logout handler registered below must still be able to fire.
+	// before: the logout handler registered above must still be able to fire.
 	defer func() {
 		go func() {
 			<-s.ctx.Done()
+			if delayTimer != nil {
+				delayTimer.Stop()
+			}
 			s.eventHandler.Clean()
 		}()
 	}()
@@ -757,15 +771,8 @@ func (s *Session) Stop() (err error) {
 		return fmt.Errorf("sendWithErrorCheck logout request: %w", err)
 	}
 
-	delayTimer := time.AfterFunc(s.LogonSettings.CloseTimeout, func() {
+	delayTimer = time.AfterFunc(s.LogonSettings.CloseTimeout, func() {
 		s.cancel()
-	})
-
-	s.OnChangeState(utils.EventLogout, func() bool {
-		delayTimer.Stop()
-		s.cancel()
-
-		return true
 	})
 
 	return nil
